@@ -72,25 +72,26 @@ func Stateful() []Table {
 	add("Muskingum", muL, 1, M{"K": 86400, "X": 0.2, "DeltaT": 86400}, M{"K": 43200, "X": 0, "DeltaT": 86400}, M{"K": 172800, "X": 0.25, "DeltaT": 86400})
 	add("Lag", [][]float64{{0}, {1}, {7}, {3.5}}, 1, M{"timeLag": 0}, M{"timeLag": 1}, M{"timeLag": 2}, M{"timeLag": 3}, M{"timeLag": 5})
 
-	// constituent transport: (loads..., outflow, storage); the last letter of each alphabet is a draining step: the
-	// reach / storage ends the step empty while water (and mass) still leaves during the step
-	lcL := [][]float64{{0, 0, 0, 0}, {0, 0, 5, 1e3}, {2, 0, 5, 1e3}, {0, 1, 5, 1e3}, {40, 3, 120, 1e6}, {2, 0, 0, 5e-3}, {2, 1, 0, 1e3}, {2, 1, 5, 0}}
+	// constituent transport: (loads..., outflow, storage); the last letters of each alphabet are a draining step (the
+	// reach / storage ends the step empty while water (and mass) still leaves during the step) and a trickle (flow rate
+	// and stored volume each below the 0.01 "no water" threshold, while the water passing in the step is far above it)
+	lcL := [][]float64{{0, 0, 0, 0}, {0, 0, 5, 1e3}, {2, 0, 5, 1e3}, {0, 1, 5, 1e3}, {40, 3, 120, 1e6}, {2, 0, 0, 5e-3}, {2, 1, 0, 1e3}, {2, 1, 5, 0}, {2, 1, 0.005, 0.001}}
 	add("LumpedConstituentRouting", lcL, 1, M{"X": 0, "pointInput": 0, "DeltaT": 86400}, M{"X": 0.2, "pointInput": 0.5, "DeltaT": 3600})
-	cdL := [][]float64{{0, 0, 0, 0, 0}, {0, 0, 5, 5, 1e3}, {2, 0, 5, 5, 1e3}, {0, 1, 5, 5, 1e3}, {40, 3, 100, 120, 1e6}, {2, 0, 0, 0, 5e-3}, {2, 1, 1, 0, 1e3}, {2, 1, 5, 5, 0}}
+	cdL := [][]float64{{0, 0, 0, 0, 0}, {0, 0, 5, 5, 1e3}, {2, 0, 5, 5, 1e3}, {0, 1, 5, 5, 1e3}, {40, 3, 100, 120, 1e6}, {2, 0, 0, 0, 5e-3}, {2, 1, 1, 0, 1e3}, {2, 1, 5, 5, 0}, {2, 1, 0.005, 0.005, 0.001}}
 	add("ConstituentDecay", cdL, 1, M{"halfLife": 0, "DeltaT": 86400}, M{"halfLife": 86400 * 3, "DeltaT": 86400}, M{"halfLife": 3600, "DeltaT": 3600})
 	fine := M{"bankFullFlow": 50, "fineSedSettVelocityFlood": 1e-5, "floodPlainArea": 1e6, "linkWidth": 20, "linkLength": 5000, "linkSlope": 0.001, "bankHeight": 2,
 		"propBankHeightForFineDep": 0.1, "sedBulkDensity": 1.5, "manningsN": 0.04, "fineSedSettVelocity": 1e-4, "fineSedReMobVelocity": 1e-3, "durationInSeconds": 86400}
 	fine0 := cp(fine, M{"bankFullFlow": 0})
 	fine2 := cp(fine, M{"fineSedSettVelocity": 1e-2, "fineSedReMobVelocity": 0.5, "propBankHeightForFineDep": 0.001})
-	ifL := [][]float64{{0, 0, 0, 0, 0}, {2, 0.5, 0.1, 1e4, 5}, {500, 0, 0, 1e4, 0.5}, {50, 2, 1, 1e6, 120}, {0, 0, 0, 1e4, 30}, {2, 0, 0, 0, 0}, {300, 0, 0, 1e6, 120}, {2, 0.5, 0.1, 0, 5}, {50, 2, 1, 1e6, 50}} // the last letter flows exactly at bank-full (50)
+	ifL := [][]float64{{0, 0, 0, 0, 0}, {2, 0.5, 0.1, 1e4, 5}, {500, 0, 0, 1e4, 0.5}, {50, 2, 1, 1e6, 120}, {0, 0, 0, 1e4, 30}, {2, 0, 0, 0, 0}, {300, 0, 0, 1e6, 120}, {2, 0.5, 0.1, 0, 5}, {50, 2, 1, 1e6, 50}, {2, 0.5, 0.1, 0.001, 0.005}} // the last but one letter flows exactly at bank-full (50)
 	fine3 := cp(fine, M{"fineSedSettVelocityFlood": 1e-3, "linkSlope": 1e-4, "fineSedSettVelocity": 1e-2})
 	fine4 := cp(fine3, M{"durationInSeconds": 43200}) // a timestep other than a day (floodplain deposition is a daily rate)
 	fine5 := cp(fine, M{"floodPlainArea": 0})         // no floodplain
 	add("InstreamFineSediment", ifL, 1, fine, fine0, fine2, fine3, fine4, fine5)
 	add("InstreamCoarseSediment", [][]float64{{0, 0, 0}, {2, 0.5, 0.1}, {50, 0, 3}}, 1, M{"durationInSeconds": 86400}, M{"durationInSeconds": 3600})
-	ipL := [][]float64{{0, 0, 0, 0, 0, 0, 0, 0}, {2, 0.5, 1e4, 5, 0.2, 1, 0.1, 0.2}, {2, 0.5, 1e4, 5, 0, 0, 0, -0.1}, {40, 3, 1e6, 120, 1, 1, 0.6, 0.5}, {2, 1, 0, 0, 0, 1, 0, 0}, {0, 0, 1e4, 5, 0, 0, 0, -0.3}, {2, 0.5, 0, 5, 0.2, 1, 0.1, 0.2}}
+	ipL := [][]float64{{0, 0, 0, 0, 0, 0, 0, 0}, {2, 0.5, 1e4, 5, 0.2, 1, 0.1, 0.2}, {2, 0.5, 1e4, 5, 0, 0, 0, -0.1}, {40, 3, 1e6, 120, 1, 1, 0.6, 0.5}, {2, 1, 0, 0, 0, 1, 0, 0}, {0, 0, 1e4, 5, 0, 0, 0, -0.3}, {2, 0.5, 0, 5, 0.2, 1, 0.1, 0.2}, {2, 0.5, 0.001, 0.005, 0.2, 1, 0.1, 0.2}}
 	add("InstreamParticulateNutrient", ipL, 1, M{"particulateNutrientConcentration": 0.002, "soilPercentFine": 35, "durationInSeconds": 86400}, M{"particulateNutrientConcentration": 0, "soilPercentFine": 100, "durationInSeconds": 3600})
-	idL := [][]float64{{0, 0, 0, 0, 0}, {0, 0, 1e4, 5, 0}, {2, 0.5, 1e4, 5, 0}, {40, 3, 1e6, 120, 0.1}, {2, 1, 2e5, 0.05, 0}, {2, 1, 0, 0, 0}, {2, 0.5, 0, 5, 0}}
+	idL := [][]float64{{0, 0, 0, 0, 0}, {0, 0, 1e4, 5, 0}, {2, 0.5, 1e4, 5, 0}, {40, 3, 1e6, 120, 0.1}, {2, 1, 2e5, 0.05, 0}, {2, 1, 0, 0, 0}, {2, 0.5, 0, 5, 0}, {2, 0.5, 0.001, 0.005, 0}}
 	dn := M{"doDecay": 1, "pointSourceLoad": 1000, "linkHeight": 3, "linkWidth": 20, "linkLength": 5000, "uptakeVelocity": 0.1, "durationInSeconds": 86400}
 	add("InstreamDissolvedNutrientDecay", idL, 1, dn, cp(dn, M{"doDecay": 0}), cp(dn, M{"pointSourceLoad": 0, "uptakeVelocity": 0}))
 
@@ -99,7 +100,7 @@ func Stateful() []Table {
 	stp2 := StorageParams(3600, []float64{0, 10}, []float64{0, 2e6}, []float64{0, 1e5}, []float64{0, 0}, []float64{0, 5})
 	stL := [][]float64{{0, 0, 0, 0, 0, 0}, {20, 0, 200, 0, 0, 0}, {0, 8, 2, 50, 0, 0}, {0, 0, 2, 1, 0, 0}}
 	ts = append(ts, Table{Model: "Storage", Params: [][]float64{stp, stp2}, PNames: []string{"n=3 dt=86400", "n=2 dt=3600"}, Letters: stL, Cost: 3})
-	rsL := [][]float64{{0, 0, 0, 1e5}, {2, 5, 5, 1e5}, {40, 120, 100, 3e6}, {2, 0.5, 0, 1e5}, {0, 5, 20, 5e4}, {2, 0.5, 0, 0}, {2, 0, 5, 0}}
+	rsL := [][]float64{{0, 0, 0, 1e5}, {2, 5, 5, 1e5}, {40, 120, 100, 3e6}, {2, 0.5, 0, 1e5}, {0, 5, 20, 5e4}, {2, 0.5, 0, 0}, {2, 0, 5, 0}, {2, 0.005, 0.005, 0.001}}
 	add("StorageParticulateTrapping", rsL, 1, M{"DeltaT": 86400, "reservoirCapacity": 3e6, "reservoirLength": 4000, "subtractor": 112, "multiplier": 800, "lengthDischargeFactor": 3.28, "lengthDischargePower": -0.2},
 		M{"DeltaT": 86400, "reservoirCapacity": 3e6, "reservoirLength": 0, "subtractor": 112, "multiplier": 800, "lengthDischargeFactor": 3.28, "lengthDischargePower": -0.2})
 	add("StorageTrapAll", rsL, 1, M{})
